@@ -15,7 +15,7 @@ def gen_shape(rng, max_parts=2, col_kinds=COL_KINDS, part_kinds=PART_KINDS,
         kind = rng.choice(part_kinds)
         pool = list(F.PART_POOLS[kind])
         rng.shuffle(pool)
-        top = 3 if nparts == 1 else 2
+        top = 4 if nparts == 1 else 3
         parts['%s%d' % (part_prefix, i)] = [kind, pool[:rng.randrange(1, min(top, len(pool)) + 1)]]
     cols = F.gen_col_specs(rng, rng.randrange(1, 5), kinds=col_kinds)
     return {'parts': parts, 'cols': cols}
@@ -25,8 +25,15 @@ def gen_frame_spec(rng, shape, batch, max_rows=40, min_rows=1, permute=True):
     cols = [['uid', 'uid', 'none', 0, None]]
     for name, kind, nullmode, _, extra in shape['cols']:
         cols.append([name, kind, nullmode, rng.randrange(2 ** 31), extra])
-    part = {n: [k, ch, rng.randrange(2 ** 31)]
-            for n, (k, ch) in shape['parts'].items()}
+    # a frame uses the shape's partition values or only some of them, so
+    # that later frames bring partitions (and combinations) the dataset does
+    # not have yet while others already exist
+    part = {}
+    for n, (k, ch) in shape['parts'].items():
+        sub = list(ch)
+        if len(sub) > 1 and rng.random() < 0.6:
+            sub = rng.sample(sub, rng.randrange(1, len(sub)))
+        part[n] = [k, sub, rng.randrange(2 ** 31)]
     if shape.get('pnull') and not any(v[0] == 'pcat' for v in part.values()):
         # some frames carry rows without a partition key (not together with
         # a categorical partition column: pandas' own groupby fails there
